@@ -16,8 +16,9 @@ func runC15(c *Ctx) {
 	borrow(c, "O1", "C06", "O2", "victim.Queue == preemptor.Queue", "preemption across queues is not ordered by priority (priorities are per queue): it would undo what reclaim decided")
 	borrow(c, "O1", "C06", "O2", "victim.UID != preemptor.UID", "a workload evicting its own pods to place its pending ones repeats every cycle")
 	// reclaim: asymmetric share conditions
+	borrow(c, "O2", "C07", "O2", "stops at the first level where they differ", "the share conditions order the eviction only if they are evaluated on the queues at the level where the two hierarchies diverge")
 	borrow(c, "O2", "C07", "O3", "Reclaimable: ", "a strategy that takes from a queue at or below its share lets that queue reclaim the same resources back")
-	borrow(c, "O2", "C07", "O3", "reclaimerWillGoOverQuota", "the reclaimer must stay within the quota it reclaims for")
+	borrow(c, "O2", "C07", "O3", "the request is added before comparing", "the reclaimer must stay within the quota it reclaims for, counting what it is about to receive")
 	borrow(c, "O2", "C07", "O4", "CanReclaimResources", "a queue above its fair share that may reclaim becomes a reclaimee of its victim in the next cycle")
 	borrow(c, "O2", "C06", "O3", "reclaim victims belong to another queue", "reclaim inside one queue is not ordered by the share comparison")
 	// saturation: strict, multiplier ≥ 1
@@ -30,6 +31,7 @@ func runC15(c *Ctx) {
 	// evictions only together with the placement they were made for
 	borrow(c, "O5", "C03", "O2", "Commit behind a successful attempt", "evictions committed for a failed placement are repeated by the next cycle for the same pending workload")
 	borrow(c, "O5", "C06", "O5", "", "evictions and the preemptor's placement are one statement: no eviction is kept when the placement is undone")
+	borrow(c, "O5", "C13", "O5", "a failed eviction does not end the commit", "victims evicted for real while the nomination they were evicted for is dropped are evicted again for the same workload in the next cycle")
 	runC15Own(c)
 }
 
